@@ -134,8 +134,30 @@ def hist_assumptions(prop):
 
 
 def replay(prop, path):
-    if prop == "C08":
+    try:
+        with open(path) as f:
+            head = f.readline().strip()
+    except OSError as e:
+        print("cannot read %s: %s" % (path, e))
+        return 3
+    if prop == "C08" or head.startswith("verif-cx"):
         return cxeng.replay(path)
+    if head.startswith("verif-lim"):
+        exes, err = lim.build()
+        if exes is None:
+            print("BUILD-ERROR " + err)
+            return 2
+        worst = 0
+        for name, exe in exes.items():
+            rc, out, err = C.run([exe, "--replay", path])
+            print("[%s build] %s" % (name, (out + err).strip()[-600:]))
+            worst = max(worst, 1 if rc != 0 else 0)
+        return worst
+    if not head.startswith("verif-replay"):
+        print("this artefact names the failing grid point / pair / corpus line; re-run `./verif check %s` to reproduce it:" % prop)
+        with open(path) as f:
+            print(f.read()[:2000])
+        return 0
     if prop in HIST_PROPS:
         exe, err = hist.build("quick")
         if exe is None:
